@@ -21,9 +21,15 @@ class Undefined(Exception):
     pass
 
 
+class NonReal(Undefined):
+    """the value exists but is not a real number (principal branch of a fractional power or logarithm of a negative number)"""
+
+
 def _fin(v):
     if isinstance(v, mp.mpc):
         if abs(v.imag) > mp.mpf(10) ** -20 * (1 + abs(v.real)):
+            if mp.isfinite(v.real) and mp.isfinite(v.imag):
+                raise NonReal('complex')
             raise Undefined('complex')
         v = v.real
     v = mp.mpf(v)
@@ -207,17 +213,29 @@ def esr_namespace(mode):
 _NS = {'esr': esr_namespace('esr'), 'plain': esr_namespace('plain')}
 
 
-def eval_string(s, x, a, mode='esr'):
+def _fin_c(v):
+    """finite real or complex value (substitution values keep their principal complex value: the recorded
+       identity is between expressions, and (a0**(1/3))**3 is a0 for every real a0 only when read that way)"""
+    if isinstance(v, mp.mpc) and abs(v.imag) > mp.mpf(10) ** -20 * (1 + abs(v.real)):
+        if not (mp.isfinite(v.real) and mp.isfinite(v.imag)):
+            raise Undefined('non-finite')
+        if abs(v) > mp.mpf(10) ** 120:
+            raise Undefined('too large')
+        return v
+    return _fin(v)
+
+
+def eval_string(s, x, a, mode='esr', complex_ok=False):
     ns = dict(_NS[mode])
     ns['x'] = x
     for i, v in enumerate(a):
         ns['a%d' % i] = v
     try:
         v = eval(compile_expr(s), {'__builtins__': {}}, ns)
-        return _fin(v)
+        return _fin_c(v) if complex_ok else _fin(v)
     except Undefined:
         raise
-    except (ZeroDivisionError, OverflowError, ValueError, TypeError, NameError) as e:
+    except (ZeroDivisionError, OverflowError, ValueError, TypeError, NameError, SyntaxError, AttributeError) as e:
         raise Undefined('%s: %s' % (type(e).__name__, e))
 
 
@@ -268,7 +286,7 @@ def apply_chain(chain, theta):
             while i >= len(new):
                 new.append(mp.mpf(0))
                 v.append(mp.mpf(0))
-            new[i] = eval_string(expr, mp.mpf(1), v, mode='plain')
+            new[i] = eval_string(expr, mp.mpf(1), v, mode='plain', complex_ok=True)
         v = new
     return v
 
@@ -312,13 +330,21 @@ def close(u, v, tol=mp.mpf(10) ** -12):
     return abs(u - v) <= tol * (1 + abs(u) + abs(v))
 
 
-def same_function(fa, fb, pts, min_defined=2):
+def same_function(fa, fb, pts, min_defined=2, nonreal_is_diff=False):
     """fa, fb: callables (x, theta) -> mpf raising Undefined.  Returns ('ok'|'diff'|'undecided', detail)"""
     ndef = 0
     for x, th in pts:
         try:
-            u = fa(x, th)
             v = fb(x, th)
+        except Undefined:
+            continue
+        try:
+            u = fa(x, th)
+        except NonReal:
+            if not nonreal_is_diff:
+                continue
+            # fb is a real number here and fa is not: the two are not the same function at this point
+            return 'diff', {'x': str(x), 'theta': [str(t) for t in th], 'lhs': 'non-real', 'rhs': str(v)}
         except Undefined:
             continue
         ndef += 1
@@ -417,11 +443,11 @@ def check_c03(lib, seed, npts=8, family_budget=120):
         npar = max([kf, ku] + [int(k[1:]) + 1 for d in chain for k, _ in d] + [1])
         pts = gen_points(rng, npar, npts)
         res, det = same_function(lambda x, th: eval_string(f, x, apply_chain(chain, th)),
-                                 lambda x, th: eval_string(u, x, th), pts)
+                                 lambda x, th: eval_string(u, x, th), pts, nonreal_is_diff=True)
         if res == 'undecided':
             pts = gen_points(rng, npar, 4 * npts)
             res, det = same_function(lambda x, th: eval_string(f, x, apply_chain(chain, th)),
-                                     lambda x, th: eval_string(u, x, th), pts)
+                                     lambda x, th: eval_string(u, x, th), pts, nonreal_is_diff=True)
         if res == 'diff':
             viol.append({'kind': 'map-unsound', 'index': i, 'function': f, 'unique': u, 'chain': chain_s, 'point': det})
         elif res == 'undecided':
